@@ -175,6 +175,23 @@ def designed_cases(r, cid0, tier):
                 sched = gen_sched(r, "progress_before_lag", 8, n)
                 out.append((mk_line(cid, src, ch, inp, stages, 8, cs, term, sched), "mixed_chunk_arms", inp))
                 cid += 1
+    # (C) the match is the first element a worker pulls: element c (first of chunk 1) pulled by worker 2
+    # before / after worker 1 processes chunk 0; every find kernel (map, filter_map, flat_map)
+    for src in (["vec", "iterx"] if tier == "quick" else ["vec", "iterx", "iteru", "slice", "range"]):
+        have = set(lazy_chains(src))
+        for ch, stages in {"M": ["M:1:0"], "F": ["Fa"], "O": ["O:1:0:1:0"], "OF": ["O:1:0:1:0", "Fa"], "X": ["X:1:0"], "MF": ["M:1:0", "Fa"]}.items():
+            if ch not in have:
+                continue
+            for c in [2, 4]:
+                n = 5 * c + 1
+                inp = list(range(n))
+                for order in ["finder_first", "other_first"]:
+                    pre = [0] * 6 + [1] + [2]
+                    pre += ([2] * 3 + [1] * (4 * c + 6)) if order == "finder_first" else ([1] * 2 + [2] * 3 + [1] * (4 * c + 6))
+                    sched = pre + gen_sched(r, "late_first", 2, n)
+                    term = ["find", "any"][cid % 2] + ":F:199:%d" % c
+                    out.append((mk_line(cid, src, ch, inp, stages, 2, ("C", c), term, sched), "first_pull_" + order, inp))
+                    cid += 1
     flat = {"X": ["X:3:100"], "XF": ["X:3:100", "Fa"], "MX": ["M:1:0", "X:3:100"], "XM": ["X:3:100", "M:1:0"]}
     for src in (["vec", "iterx", "range"] if tier == "quick" else ["vec", "iterx", "iteru", "range", "slice", "deque"]):
         have = set(lazy_chains(src))
